@@ -405,6 +405,11 @@ func TestFixedSpecs(t *testing.T) {
 		"grammar g;\nHALF = /\\xD800z/\nREPL = /\\xFFFDz/\nstart = HALF | REPL;\n",
 		"grammar g;\nPAD = /x*/\nstart = PAD \"y\";\n",
 		"grammar g;\nANY = /./\nstart = ANY | \"x\" | \"'\";\n",
+		// symbol groups of equal size that agree under common digests (sum, xor, 31-polynomial): a table writer that
+		// abbreviates, caches or de-duplicates groups by such a digest confuses them
+		"grammar g;\nRA = /r[<>]/\nCA = /c[;\\]]/\nPA = /p[Ab]/\nQA = /q[BC]/\nSA = /s[ad]/\nTA = /t[bc]/\nUA = /u[ae]/\nVA = /v[bd]/\nWA = /w[\\x21\\x40]/\nXA = /x[\\x20\\x41]/\nstart = RA | CA | PA | QA | SA | TA | UA | VA | WA | XA;\n",
+		// terminals whose text would end a comment or a string in the emitted source
+		"grammar g;\nstart = \"*/\" | \"/*\" | \"*/case(99):/*\" | \"//\" | \"`+`\" | \"\\\"+\\\"\" ;\n",
 	}
 	var ps []*prepared
 	for _, s := range specs {
